@@ -26,3 +26,32 @@ Definition c17_case (n_ids : nat) (c : comp) (n_par n_names n_top n_dim : nat) (
 Fixpoint lopt_eqb (a b : list (option nat)) : bool := lon_eqb a b.
 Definition shape_case (c : comp) (row : list nat) (observed : list (option nat)) : bool :=
   lon_eqb (shape nat (special_ranges 0 c) 0 0 row) observed.
+
+(* ---- compositions of compositions (Model/Nested.v) ---- *)
+From Chi Require Import Model.Nested.
+Fixpoint obj_eqb (a b : obj) : bool :=
+  match a, b with
+  | OLeaf h n, OLeaf h' n' => Bool.eqb h h' && Nat.eqb n n'
+  | ONode n ts, ONode n' ts' =>
+      Nat.eqb n n' &&
+      (fix go (l l' : list obj) : bool :=
+         match l, l' with
+         | [], [] => true
+         | x :: r, x' :: r' => obj_eqb x x' && go r r'
+         | _, _ => false
+         end) ts ts'
+  | _, _ => false
+  end.
+(* observed on chi: n_ids() of every object after construction, and after set_n_ids k on the outermost one *)
+Definition c17_nids (r : recipe) (after_build : obj) (k : nat) (after_set : obj) : bool :=
+  obj_eqb (make build r) after_build && obj_eqb (set_n k (make build r)) after_set.
+(* observed on chi: n_dim(), n_parameters(), n_hierarchical_dim() and the special ranges of a nested composition *)
+Definition c17_nested (n_ids : nat) (t : tree) (n_dim n_par n_hdim : nat) (sp : list (nat * nat)) : bool :=
+  Nat.eqb (t_dim t) n_dim && Nat.eqb (t_par n_ids t) n_par && Nat.eqb (t_hdim t) n_hdim &&
+  ranges_eqb (t_special t) sp.
+(* observed on chi: the reduce=True sensitivities of a nested composition, entries replaced by tags; the leaves of
+   the dtree carry the (tagged) sensitivities each leaf model returns on its own *)
+Fixpoint ln_eqb (a b : list nat) : bool :=
+  match a, b with [], [] => true | x :: a', y :: b' => Nat.eqb x y && ln_eqb a' b' | _, _ => false end.
+Definition c17_red (n : nat) (t : dtree nat) (observed : list nat) : bool :=
+  match red nat (width_fixed nat) n t with Some ds => ln_eqb ds observed | None => false end.
